@@ -97,6 +97,14 @@ def _hash_case(draw):
     return {"ops": ops}
 
 
+PREDICATES = {}
+try:
+    from . import c09_real as _r
+    PREDICATES.update(_r.PREDICATES_EXTRA)
+except ImportError:
+    pass
+
+
 def clauses():
     cl = [
         Clause("hashtable", _hash_case, check_hash, quick=6000, thorough=200000,
